@@ -244,6 +244,19 @@ fn loaders_errors(der: &[u8], pem: Option<&str>, n: &Needles, f: &mut Vec<Findin
 }
 
 #[cfg(feature = "crypto")]
+/// Which keys take part in the error-text sections (every mutant of an RSA key costs a full RSA key validation, 0.1 s
+/// and more above 4096 bits): every non-RSA key; of the RSA keys one of each size up to 6144 bits in PKCS#8 form, the
+/// first 2048-bit key in both forms; 8192-bit and freshly generated RSA keys appear in the artefact channels only.
+fn error_text_key(label: &str, is_rsa: bool) -> bool {
+    if !is_rsa {
+        return true;
+    }
+    if label.starts_with("generated") || label.contains("rsa8192") {
+        return false;
+    }
+    label.contains("rsa2048_1") || (label.contains("_1.pkcs8") && !label.contains("rsa2048_2"))
+}
+
 pub fn run(prop: &str, tier: &str, replay: Option<&str>) -> i32 {
     run::set_replay(replay);
     let thorough = tier == "thorough";
@@ -352,6 +365,9 @@ pub fn run(prop: &str, tier: &str, replay: Option<&str>) -> i32 {
         if (k.label.starts_with("generated") || k.der.len() > 170) && !thorough {
             continue;
         }
+        if !error_text_key(&k.label, k.alg.is_rsa()) {
+            continue;
+        }
         let n_all = d1_count(k.der.len());
         // RSA keys are large: quick tier covers every edit of the first 160 and last 64 bytes
         let sec = Section::new(&format!("errors-der-d1/key{:02} {}", ki, k.label), &format!("every distance-1 mutant of the {}-byte private key DER ({} mutants{}) through every key loader and every other parser: Display, Debug and alternate Debug of each error", k.der.len(), n_all, if k.der.len() > 400 && !thorough { "; quick: positions in the first 160 and last 64 bytes" } else if k.der.len() > 1300 { "; keys of 3072 bits and more: positions in the first 420 and last 160 bytes" } else { "" })).with_deadline(if thorough { 900 } else { 30 });
@@ -394,6 +410,9 @@ pub fn run(prop: &str, tier: &str, replay: Option<&str>) -> i32 {
     };
     for (ki, k) in keys.iter().enumerate() {
         if k.label.starts_with("generated") && !thorough {
+            continue;
+        }
+        if !error_text_key(&k.label, k.alg.is_rsa()) {
             continue;
         }
         let label = match k.format {
